@@ -77,7 +77,7 @@ NOT_YET = {
 }
 
 
-PENDING = {"C18"}   # built, waiting for their Lean theorems to be merged
+PENDING = set()   # built, waiting for their Lean theorems to be merged
 
 
 def main():
